@@ -4,6 +4,12 @@ import PhyVerif.Lemmas.C11
 import PhyVerif.Lemmas.C11b
 import PhyVerif.Model.C11b
 import PhyVerif.Lemmas.C11c
+import PhyVerif.Lemmas.C11d
+import PhyVerif.Model.C11e
+import PhyVerif.Spec.C11e
+import PhyVerif.Lemmas.C11e
+import PhyVerif.Lemmas.C11i
+import PhyVerif.Lemmas.C11k
 /-!
 # C11 — merging probes conserves every spike and renumbers ids disjointly
 Only property theorems + non-vacuity examples; proofs in `Lemmas/C11.lean`.
@@ -91,6 +97,28 @@ theorem clusterProbes_ok (ids : List (List Nat)) (k : Nat) (hk : k < ids.length)
     (clusterProbes ids).getD (c + (idOffsets ids).getD k 0) (ids.length) = k :=
   Lemmas.clusterProbes_ok ids k hk c hc
 
+/-- Size of the probe table: it has exactly one row per merged cluster id — `Σ_k (max(spike_clusters_k) + 1)`
+rows, which is the largest merged cluster id plus one (the equality the code asserts at merge.py:161).
+Hypotheses: the cluster arrays have as many entries in total as there are spikes (the code asserts it,
+merge.py:50), there is at least one probe (`assert subdirs`), and `hne`: every probe has a spike. For a probe
+WITHOUT spikes the real code raises `ValueError` at `np.max(sc)` (merge.py:147; run: 2 probes, the second or the
+first one spike-less → "zero-size array to reduction operation maximum which has no identity", inputs
+untouched, no merged dataset) while the model totalises that maximum as 0: without `hne` the first equality is
+false in the model (second example below). -/
+theorem clusterProbes_length (times : List (List Int)) (ids : List (List Nat))
+    (hlen : ids.flatten.length = times.flatten.length) (hne : NonEmpty ids) (h0 : ids ≠ []) :
+    (clusterProbes ids).length = (mergedIds times ids).foldl max 0 + 1 ∧
+    (clusterProbes ids).length = (ids.map fun a => a.foldl max 0 + 1).sum :=
+  Lemmas.clusterProbes_length times ids hlen hne h0
+
+/-- … and every row of the table belongs to exactly one probe's id range: row K is `c + offset_k` for an
+original id `c ≤ max(spike_clusters_k)` of the probe `k` the row names (with `clusterProbes_ok` and
+`ids_disjoint`: the table is completely determined). -/
+theorem clusterProbes_cover (ids : List (List Nat)) (K : Nat) (hK : K < (clusterProbes ids).length) :
+    ∃ k c, k < ids.length ∧ c ≤ (ids.getD k []).foldl max 0 ∧ K = c + (idOffsets ids).getD k 0 ∧
+      (clusterProbes ids).getD K ids.length = k :=
+  Lemmas.clusterProbes_cover ids K hK
+
 /-- Renumbered metadata: the entry of original cluster c of probe k is found under key
 c + offset_k, with its value unchanged. -/
 theorem metadata_renumbered {β : Type} (md : List (Option (List (Nat × β)))) (offsets : List Nat)
@@ -138,5 +166,77 @@ theorem merged_dataset_loads (inv : C04.Arr → C04.Arr) (p : Probes) (h : Probe
       v.channelProbes = some (natVec (C12.channelProbes p.maps)) ∧
       v.channelPositions = posArr (C12.mergePositions p.positions) :=
   Lemmas.merged_dataset_loads inv p h
+
+/-! ## The merge as a function on directories (`Model/C11e.lean`) -/
+
+/-- The input directories are left byte-identical: whatever `Merger(subdirs, out).merge()` does — return or
+raise, at any step — every file of every probe directory reads as before and no file appears in a probe
+directory; indeed no path outside the output directory changes, and inside the output directory only the
+merger's own file names (`outputNames`). Hypothesis `hout`: the output directory is not one of the probe
+directories. The real constructor does not check it: with `out = subdirs[0]` the real merge overwrites
+`spike_times.npy`, `amplitudes.npy`, `spike_templates.npy`, `params.py` of that probe and then fails with
+`AssertionError` (merge.py:51) — as the model does (`example` below). What `load_model` may create
+(`spike_clusters.npy`, `whitening_mat_inv.npy`, C04 `load_frame`) is created in the OUTPUT directory only: the
+merger never loads a probe directory as a model, it reads single files (`np.load`, `read_python`,
+`_read_tsv_simple`). -/
+theorem inputs_untouched (fs : FS) (subdirs : List String) (out : String) (hout : out ∉ subdirs) :
+    (∀ d ∈ subdirs, ∀ name, (merge fs subdirs out).1.1.read (d, name) = fs.read (d, name)) ∧
+    (∀ d name, d ≠ out → (merge fs subdirs out).1.1.read (d, name) = fs.read (d, name)) ∧
+    (∀ name, name ∉ outputNames → (merge fs subdirs out).1.1.read (out, name) = fs.read (out, name)) :=
+  Lemmas.inputs_untouched fs subdirs out hout
+
+/-- A merge that returns (no exception) has read `I` from the probe directories, `I` is in the domain where
+the real code does not raise (`InDomain`: ≥ 1 probe, every probe has spikes — `Spec.NonEmpty` — and not exactly
+one, every probe has channels, per-spike arrays of equal total length), and — merging into an empty output
+directory — the output directory then holds exactly the files of the table `expectedOut`, i.e. the values of
+the pure functions all other C11 / C12 theorems are about (the spike order and the offsets the merger keeps on
+`self` between its `write_*` methods are those functions of the inputs; `spike_templates.npy`, written twice,
+ends shifted; the per-cluster TSVs appear exactly when a row is kept; an optional matrix exactly when every
+probe has it; `whitening_mat_inv.npy` always: merged, or computed by the final `load_model`). -/
+theorem merge_ok_contents (fs : FS) (subdirs : List String) (out : String) (fs' : FS) (reg' : Reg)
+    (h : merge fs subdirs out = ((fs', reg'), none)) (hout : out ∉ subdirs) :
+    ∃ I, Loaded fs subdirs I ∧ InDomain subdirs I ∧
+      ((∀ n, fs.read (out, n) = none) → ∀ name, fs'.read (out, name) = expectedOut subdirs I name) :=
+  Lemmas.merge_ok fs subdirs out fs' reg' h hout
+
+/-- Conversely, probe directories in that domain are merged without any exception: the merger's own
+assertions (merge.py:50 equal lengths, merge.py:161 "largest merged cluster id + 1 = size of the probe table" —
+which is `clusterProbes_length`) can never fire on them. With `merge_ok_contents`: among the file systems whose
+output directory is not a probe directory, the merge returns EXACTLY on the loadable inputs of `InDomain`. -/
+theorem merge_returns_iff (fs : FS) (subdirs : List String) (out : String) (hout : out ∉ subdirs) :
+    (merge fs subdirs out).2 = none ↔ ∃ I, Loaded fs subdirs I ∧ InDomain subdirs I :=
+  Lemmas.merge_returns_iff fs subdirs out hout
+
+/-- A probe without spikes (or with exactly one) makes the merge raise — the model of the `ValueError`s of
+`np.max` (merge.py:147) and of `np.concatenate` on a squeezed one-element array (merge.py:30) — and by
+`inputs_untouched` nothing outside the output directory has changed. -/
+theorem merge_raises_of_few_spikes (fs : FS) (subdirs : List String) (out : String) (hout : out ∉ subdirs)
+    (d : String) (hd : d ∈ subdirs) (v : List Nat) (hv : fs.read (d, "spike_clusters.npy") = some (.nats v))
+    (hfew : v.length ≤ 1) : (merge fs subdirs out).2 ≠ none :=
+  Lemmas.merge_raises_of_few_spikes fs subdirs out hout d hd v hv hfew
+
+/-! Non-vacuity of the later theorems -/
+example : (clusterProbes [[0, 2, 2], [4, 0], [1, 1]]).length = 10 ∧
+    (mergedIds [[3, 5, 5], [1, 5], [5, 9]] [[0, 2, 2], [4, 0], [1, 1]]).foldl max 0 + 1 = 10 := by decide
+-- `hne` of `clusterProbes_length` cannot be dropped: a spike-less last probe still takes a row of the model's table
+example : (clusterProbes [[2], []]).length = 4 ∧ (mergedIds [[7], []] [[2], []]).foldl max 0 + 1 = 3 := by decide
+
+example : (merge exampleFS ["a", "b"] "out").2 = none ∧
+    (merge exampleFS ["a", "b"] "out").1.1.names "out" =
+      ["whitening_mat_inv.npy", "template_feature_ind.npy", "pc_feature_ind.npy", "templates.npy",
+       "channel_positions.npy", "channel_probe.npy", "channel_map.npy", "cluster_KSLabel.tsv", "cluster_probes.npy",
+       "spike_templates.npy", "spike_clusters.npy", "amplitudes.npy", "spike_times.npy", "probes.description.tsv",
+       "params.py"] ∧
+    (merge exampleFS ["a", "b"] "out").1.1.read ("out", "spike_clusters.npy") = some (.nats [1, 3, 0, 2]) ∧
+    (merge exampleFS ["a", "b"] "out").1.1.read ("out", "whitening_mat_inv.npy") = some (.computedInv none) ∧
+    (merge exampleFS ["a", "b"] "out").1.1.names "a" = exampleFS.names "a" := by decide +kernel
+-- the output directory is one of the probe directories (`hout` fails): the probe's files are overwritten and
+-- the merge raises the assertion of merge.py:51, as the real code does
+example : (merge exampleFS ["a", "b"] "a").2 = some (.shape "spike_templates.npy") ∧
+    (merge exampleFS ["a", "b"] "a").1.1.read ("a", "spike_times.npy") = some (.ints [3, 4, 5, 5]) := by decide +kernel
+-- a spike-less probe: `ValueError` of `np.max`
+example : (merge (exampleProbe "a" [3, 5] [] ++ [(("b", "params.py"), .params 30000 2), (("b", "spike_times.npy"), .ints []),
+      (("b", "amplitudes.npy"), .ints []), (("b", "spike_templates.npy"), .nats []), (("b", "spike_clusters.npy"), .nats [])])
+    ["a", "b"] "out").2 = some (.emptyMax "spike_clusters.npy") := by decide +kernel
 
 end PhyVerif.C11
